@@ -98,7 +98,11 @@ Definition check_write (enc zip : bytes -> bytes) (ver : Z) (thr : N) (has_c : b
            check_that (wo_err o || wo_panic o ||
                        (layout_ok ver pa frame &&
                         (negb clean || bytes_eqb (dropN (body_off ver pa) frame) (wire_body enc zip p pa))))
-                      (VPropFail 5) ] in
+                      (VPropFail 5);
+           (* a frame beyond a limit must not be emitted *)
+           check_that (wo_err o || ((lenN frame <=? ver_max ver)
+                                    && (Z.eqb ver 1 || (lenN (p_refers p) <=? 255))))
+                      (VPropFail 10) ] in
   vjoin prop corr.
 
 Fixpoint check_writes (enc zip : bytes -> bytes) (ver : Z) (thr : N) (has_c : bool)
